@@ -28,7 +28,7 @@ import (
 // that an honest session produced for this key, or one that differs from it by a semantic
 // no-op; everything else must be rejected; honest pairs must be accepted.
 
-var c01Feat = GenFeat{Commit: true, Lookup: true, Range: false, Hint: true, Wide: false, Bits: true, ScaledBool: true, MaxOps: 7, MinOps: 1}
+var c01Feat = GenFeat{Commit: true, ChainCommit: true, Lookup: true, Range: false, Hint: true, Wide: false, Bits: true, ScaledBool: true, MaxOps: 7, MinOps: 1}
 
 type session struct {
 	wi     int
@@ -150,7 +150,16 @@ func perturbLeaf(tape *simrt.Tape, l reflect.Value, other reflect.Value, q *big.
 			return "one"
 		}
 	}
-	switch tape.Choose(simrt.SFault, 6) {
+	switch tape.Choose(simrt.SFault, 7) {
+	case 6:
+		// a point of the curve outside the prime-order subgroup: the element plus a point of
+		// cofactor order (pairings do not see the difference; only a subgroup check does)
+		if t, ok := cofactorPoint(l, q); ok {
+			rcall(l, "Add", l.Addr(), t.Addr())
+			return "moved out of the subgroup by a point of cofactor order"
+		}
+		rcall(l, "Double", l.Addr())
+		return "doubled"
 	case 0:
 		l.Set(reflect.Zero(l.Type()))
 		return "infinity"
@@ -176,6 +185,46 @@ func perturbLeaf(tape *simrt.Tape, l reflect.Value, other reflect.Value, q *big.
 		rcall(l, "Double", l.Addr())
 		return "doubled"
 	}
+}
+
+// cofactorPoint returns a non-zero point of cofactor order on the curve of the G1 leaf l (a
+// non-zero subgroup point), found without curve-specific code: b = y^2 - x^3 from l itself,
+// a curve point R with a small abscissa, then [r]R for the subgroup order r.
+func cofactorPoint(l reflect.Value, r *big.Int) (reflect.Value, bool) {
+	X, Y := l.FieldByName("X"), l.FieldByName("Y")
+	if !X.IsValid() || !Y.IsValid() || !X.CanAddr() || !X.Addr().MethodByName("Sqrt").IsValid() || !X.Addr().MethodByName("SetUint64").IsValid() {
+		return reflect.Value{}, false // G2 (extension-field coordinates) or not a point
+	}
+	if m := l.Addr().MethodByName("IsInfinity"); !m.IsValid() || m.Call(nil)[0].Bool() {
+		return reflect.Value{}, false
+	}
+	el := func() reflect.Value { return reflect.New(X.Type()).Elem() }
+	b, x3 := el(), el()
+	rcall(b, "Square", Y.Addr())
+	rcall(x3, "Square", X.Addr())
+	rcall(x3, "Mul", x3.Addr(), X.Addr())
+	rcall(b, "Sub", b.Addr(), x3.Addr())
+	for k := uint64(1); k < 200; k++ {
+		x, rhs, y := el(), el(), el()
+		rcall(x, "SetUint64", reflect.ValueOf(k))
+		rcall(rhs, "Square", x.Addr())
+		rcall(rhs, "Mul", rhs.Addr(), x.Addr())
+		rcall(rhs, "Add", rhs.Addr(), b.Addr())
+		if res := rcall(y, "Sqrt", rhs.Addr()); res[0].IsNil() {
+			continue
+		}
+		R := reflect.New(l.Type()).Elem()
+		R.FieldByName("X").Set(x)
+		R.FieldByName("Y").Set(y)
+		if !R.Addr().MethodByName("IsOnCurve").Call(nil)[0].Bool() {
+			continue
+		}
+		rcall(R, "ScalarMultiplication", R.Addr(), reflect.ValueOf(r))
+		if !R.Addr().MethodByName("IsInfinity").Call(nil)[0].Bool() {
+			return R, true
+		}
+	}
+	return reflect.Value{}, false
 }
 
 // sameTypeLeaf picks a leaf of type t (other than index skip) from x.
